@@ -8,7 +8,9 @@
 (*          dots, rest or pitch (step, alter, octave), a tie mark          *)
 (*          ("[" opens, "_" continues, "]" closes) and the grace flag;     *)
 (*   bar    a barline with its number in every spine;                      *)
-(*   interp a tandem interpretation per spine: clef, meter, key, staff.    *)
+(*   interp a tandem interpretation per spine: clef, meter, key, staff;     *)
+(*   path   spine-path indicators: "split" (star-caret) turns a spine into  *)
+(*          two sub-spines, adjacent "join" tokens (star-v) merge into one. *)
 (* All spines share one clock.  A data line sounds at the moment the       *)
 (* spines holding a token on it become free; a token keeps its spine busy  *)
 (* for 4/recip * (2 - 2^-dots) quarters (nothing for a grace note); a null *)
@@ -18,13 +20,14 @@
 (***************************************************************************)
 EXTENDS Rat, Sequences, FiniteSets, TLC
 
-VARIABLES free,      \* per spine: the time it becomes free (quarters)
+VARIABLES free,      \* per column: the time it becomes free (quarters)
+          kcol,      \* per column: <<top-level spine it descends from, number of the sub-spine>>
           knotes,    \* placed notes
           kopen,     \* per spine: open ties <<pitch, note index>>
           kbars,     \* barlines [at, number]
           kattrs,    \* interpretations [spine, kind, at, a, b, c]
           kbad       \* names of violated rules
-kvars == <<free, knotes, kopen, kbars, kattrs, kbad>>
+kvars == <<free, kcol, knotes, kopen, kbars, kattrs, kbad>>
 
 KZero == <<0, 1>>
 RMinSet(S) == CHOOSE x \in S : \A y \in S : RLeq(x, y)
@@ -33,7 +36,7 @@ RECURSIVE Pow2N(_)
 Pow2N(k) == IF k = 0 THEN 1 ELSE 2 * Pow2N(k - 1)
 (* duration of a value with reciprocal r and d dots, in quarters: 4/r * (2 - 1/2^d) *)
 KDur(r, d) == RMul(R(4, r), R(2 * Pow2N(d) - 1, Pow2N(d)))
-KInit(nspines) == /\ free = [i \in 1..nspines |-> KZero] /\ knotes = <<>> /\ kopen = [i \in 1..nspines |-> <<>>]
+KInit(nspines) == /\ free = [i \in 1..nspines |-> KZero] /\ kcol = [i \in 1..nspines |-> <<i, 1>>] /\ knotes = <<>> /\ kopen = [i \in 1..nspines |-> <<>>]
                   /\ kbars = <<>> /\ kattrs = <<>> /\ kbad = {}
 NSp == Len(free)
 AllFreeAt == RMaxSet({free[i] : i \in 1..NSp})
@@ -55,7 +58,7 @@ PlaceToken(sp, tok, T, acc0) ==
                    opens == x.tie \in {"[", "_"}
                    prev == IF closes /\ oi # 0 THEN opn[oi][2] ELSE 0
                    opn1 == IF closes /\ oi # 0 THEN Drop(opn, oi) ELSE opn
-                   n == [spine |-> sp, on |-> T, dur |-> IF x.grace = 1 THEN KZero ELSE KDur(x.recip, x.dots), rest |-> x.rest,
+                   n == [spine |-> kcol[sp][1], sub |-> kcol[sp][2], on |-> T, dur |-> IF x.grace = 1 THEN KZero ELSE KDur(x.recip, x.dots), rest |-> x.rest,
                          step |-> x.step, alter |-> x.alter, octave |-> x.octave, grace |-> x.grace, prev |-> prev]
                IN <<Append(acc[1], n),
                     IF opens /\ x.rest = 0 THEN Append(opn1, <<key, Len(acc[1]) + 1>>) ELSE opn1,
@@ -84,22 +87,43 @@ ReadData(line) ==
                    \cup (IF \E i \in holders : \E k \in 2..Len(line.toks[i].notes) :
                               KDur(line.toks[i].notes[k].recip, line.toks[i].notes[k].dots) # KDur(line.toks[i].notes[1].recip, line.toks[i].notes[1].dots)
                          THEN {"chord_of_unequal_durations"} ELSE {})
-      /\ UNCHANGED <<kbars, kattrs>>
+      /\ UNCHANGED <<kbars, kattrs, kcol>>
 ReadBar(line) ==
    /\ kbars' = Append(kbars, [at |-> AllFreeAt, number |-> line.number])
    /\ kbad' = kbad \cup (IF Aligned THEN {} ELSE {"barline_while_a_spine_is_busy"})
-   /\ UNCHANGED <<free, knotes, kopen, kattrs>>
+   /\ UNCHANGED <<free, kcol, knotes, kopen, kattrs>>
 ReadInterp(line) ==
-   /\ kattrs' = kattrs \o SelectSeq([i \in 1..NSp |-> [spine |-> i, kind |-> line.toks[i].kind, at |-> AllFreeAt,
+   /\ kattrs' = kattrs \o SelectSeq([i \in 1..NSp |-> [spine |-> kcol[i][1], kind |-> line.toks[i].kind, at |-> AllFreeAt,
                                                          a |-> line.toks[i].a, b |-> line.toks[i].b, c |-> line.toks[i].c]],
                                      LAMBDA x : x.kind # "null")
-   /\ UNCHANGED <<free, knotes, kopen, kbars, kbad>>
+   /\ UNCHANGED <<free, kcol, knotes, kopen, kbars, kbad>>
+(* spine paths: the columns after the line, as <<first old column, last old column>> (a split column appears twice,
+   a run of joins once); a new sub-spine gets the lowest number its top-level spine is not using *)
+NewCols(line) ==
+   LET F[i \in 0..NSp] ==
+          IF i = 0 THEN <<>>
+          ELSE IF line.toks[i].kind = "split" THEN F[i - 1] \o << <<i, i, 0>>, <<i, i, 1>> >>
+          ELSE IF line.toks[i].kind = "join" /\ i > 1 /\ line.toks[i - 1].kind = "join"
+               THEN [F[i - 1] EXCEPT ![Len(F[i - 1])] = <<F[i - 1][Len(F[i - 1])][1], i, 0>>]
+          ELSE Append(F[i - 1], <<i, i, 0>>)
+   IN F[NSp]
+FreshSub(top) == LET used == {kcol[i][2] : i \in {j \in 1..NSp : kcol[j][1] = top}} IN CHOOSE k \in 1..(NSp + 1) : k \notin used /\ \A m \in 1..(k - 1) : m \in used
+ReadPath(line) ==
+   LET nc == NewCols(line) IN
+   /\ free' = [c \in 1..Len(nc) |-> free[nc[c][1]]]
+   /\ kcol' = [c \in 1..Len(nc) |-> IF nc[c][3] = 1 THEN <<kcol[nc[c][1]][1], FreshSub(kcol[nc[c][1]][1])>> ELSE kcol[nc[c][1]]]
+   /\ kopen' = [c \in 1..Len(nc) |-> IF nc[c][3] = 1 THEN <<>>
+                                      ELSE IF nc[c][2] > nc[c][1] THEN kopen[nc[c][1]] \o kopen[nc[c][2]] ELSE kopen[nc[c][1]]]
+   /\ kbad' = kbad \cup (IF \E c \in 1..Len(nc) : nc[c][2] > nc[c][1] /\ (\E i \in nc[c][1]..nc[c][2] : free[i] # free[nc[c][1]] \/ kcol[i][1] # kcol[nc[c][1]][1])
+                         THEN {"join_of_spines_that_are_not_aligned"} ELSE {})
+                   \cup (IF Aligned THEN {} ELSE {"spine_path_while_a_spine_is_busy"})
+   /\ UNCHANGED <<knotes, kbars, kattrs>>
 
 (* ---- what the document denotes ---- *)
 KNext(i) == IF \E j \in 1..Len(knotes) : knotes[j].prev = i THEN (CHOOSE j \in 1..Len(knotes) : knotes[j].prev = i) ELSE 0
 RECURSIVE KChain(_)
 KChain(i) == IF KNext(i) = 0 THEN knotes[i].dur ELSE RAdd(knotes[i].dur, KChain(KNext(i)))
-KSounding == {[spine |-> knotes[i].spine, on |-> knotes[i].on, dur |-> KChain(i), step |-> knotes[i].step, alter |-> knotes[i].alter,
+KSounding == {[spine |-> knotes[i].spine, sub |-> knotes[i].sub, on |-> knotes[i].on, dur |-> KChain(i), step |-> knotes[i].step, alter |-> knotes[i].alter,
                octave |-> knotes[i].octave, grace |-> knotes[i].grace] : i \in {j \in 1..Len(knotes) : knotes[j].rest = 0 /\ knotes[j].prev = 0}}
 KRests == {[spine |-> knotes[i].spine, on |-> knotes[i].on, dur |-> knotes[i].dur] : i \in {j \in 1..Len(knotes) : knotes[j].rest = 1}}
 (* the smallest number of divisions per quarter that represents every duration and position exactly *)
